@@ -278,7 +278,7 @@ def run_property(prop, harnesses, tier, seed, jobs, text, assumptions, design_re
                         rec = dict(property=prop, harness=hn, src=h['src'], defines=h['defines'], kind=v['kind'], msg=v['msg'], func=v['func'], stack=v['stack'],
                                    choices=v['choices'], draws=v['draws'], native=native_string(v['choices'], v['draws']))
                         json.dump(rec, open(rp, 'w'), indent=1)
-                        if v['kind'] in ('global-state', 'race', 'uninit'):
+                        if v['kind'] in ('global-state', 'race', 'uninit', 'env-contract'):
                             # facts about the executed IR of the real code (a store to a global on a feasible path / overlapping
                             # footprints of the two async tasks / a load of a never-written location whose value reaches a branch, an
                             # assertion or the environment): no native single run can exhibit them (ASan/UBSan do not track
